@@ -165,12 +165,12 @@ theorem pascalGo_key (b : Bool) : ∀ (cap : Bool) (s : Str), KeyStr s → KeySt
           · exact hch
         · exact pascalGo_key b false rest hrest c hc
 
-theorem toPascal_key {s : Str} (h : KeyStr s) : KeyStr (Rename.toPascal s) := pascalGo_key _ _ s h
+theorem toPascal_key {U : UnicodeOps} {s : Str} (h : KeyStr s) : KeyStr (Rename.toPascal U s) := pascalGo_key _ _ s h
 
-theorem toCamel_key {s : Str} (h : KeyStr s) : KeyStr (Rename.toCamel s) := by
-  have hp := toPascal_key h
+theorem toCamel_key {U : UnicodeOps} {s : Str} (h : KeyStr s) : KeyStr (Rename.toCamel U s) := by
+  have hp := toPascal_key (U := U) h
   unfold Rename.toCamel
-  cases hq : Rename.toPascal s with
+  cases hq : Rename.toPascal U s with
   | nil => intro c hc; simp [Rename.lowerFirst] at hc
   | cons c t =>
     rw [hq] at hp
